@@ -174,6 +174,15 @@ def match_reducer(elt: T):
             deg = bool(d.args[1])
         elif d.op == "enum" and d.args[1] in ("radians", "degrees"):
             deg = d.args[1] == "degrees"
+        elif d.op in ("const", "enum") and _PROG is not None:
+            # some other constant handed to the selector (a bool where a
+            # unit member is expected ...): what the helper does with it
+            from ..interp import Interp
+            rr = Interp(_PROG).run(fn, {sel: d}).ret
+            if any(y.op == "ite" for y in rr.walk()):
+                return None
+            deg = any(is_call_to(y, "numpy.rad2deg", "numpy.degrees",
+                                 "math.degrees") for y in rr.walk())
         else:
             return None
         if bound.get(params[0]) is not x.args[1][0]:
